@@ -82,6 +82,44 @@ def replay_batch(entries, timeout=1800):
         except OSError: pass
 
 
+def crosscheck(dumps, timeout=30):
+    """re-decide dumped obligations (SMT-LIB2 text, z3's answer) with the cvc5 and z3 4.8 binaries"""
+    if not dumps:
+        return None
+    import shutil
+    solvers = [(n, p) for n, p in (('cvc5', shutil.which('cvc5')), ('z3-4.8', '/usr/bin/z3' if os.path.exists('/usr/bin/z3') else None)) if p]
+    res = {'obligations': len(dumps), 'solvers': [n for n, _ in solvers], 'agreements': 0, 'disagreements': 0, 'errors': 0, 'timeouts': 0,
+           'first_problem': '', 'wall_s': 0.0}
+    t0 = time.time()
+    d = tempfile.mkdtemp(prefix='pathsym_smt_')
+    try:
+        for i, (jid, (text, expected)) in enumerate(dumps):
+            f = os.path.join(d, 'ob_%d.smt2' % i)
+            with open(f, 'w') as fh:
+                fh.write('(set-logic ALL)\n' + text if 'set-logic' not in text else text)
+            for name, path in solvers:
+                cmd = [path, f] if name != 'cvc5' else [path, '--lang=smt2', f]
+                try:
+                    p = subprocess.run(cmd, capture_output=True, text=True, timeout=timeout)
+                    out = (p.stdout + p.stderr).strip()
+                except subprocess.TimeoutExpired:
+                    res['timeouts'] += 1; continue
+                first = out.split('\n')[0].strip() if out else ''
+                if '(error' in out or first not in ('sat', 'unsat', 'unknown'):
+                    res['errors'] += 1; res['first_problem'] = res['first_problem'] or '%s on %s: %s' % (name, jid, out[:200])
+                elif first == 'unknown':
+                    res['timeouts'] += 1
+                elif first == expected:
+                    res['agreements'] += 1
+                else:
+                    res['disagreements'] += 1; res['first_problem'] = res['first_problem'] or '%s says %s, z3 5.1 said %s on %s' % (name, first, expected, jid)
+    finally:
+        import shutil as _sh
+        _sh.rmtree(d, ignore_errors=True)
+    res['wall_s'] = round(time.time() - t0, 1)
+    return res
+
+
 def _jsonable(x):
     try:
         json.dumps(x); return x
@@ -103,6 +141,10 @@ def run_property(prop, tier, jobs, level_note='', assumptions=(), outside=(), wo
     # long shapes first (LPT scheduling of the worker pool): tier B vectors, then by number of items
     jobs.sort(key=lambda j: (0 if j['id'].startswith('tierB') else 1, -int(j['params'].get('n', j['params'].get('L', 0)) or 0)))
     known_builder = make_known_builder(prop)
+    if tier == 'thorough' and os.environ.get('VERIF_CROSSCHECK', '1') != '0':
+        # the obligations of the smallest shapes are re-decided by two other solver binaries (cross-check, not the deciding step)
+        for j in sorted(jobs, key=lambda j: int(j['params'].get('n', j['params'].get('L', j['params'].get('k', 9))) or 9))[:8]:
+            j['dump'] = True
 
     def progress(agg, el):
         sys.stderr.write('[%s %s] %.0fs paths=%d\n' % (prop, tier, el, sum(a['paths'] for a in agg)))
@@ -157,8 +199,12 @@ def run_property(prop, tier, jobs, level_note='', assumptions=(), outside=(), wo
         if r.get('findings'):
             known_lines.append('KNOWN-FINDING: property=%s %s [%s; solver-found failing paths inside the recorded predicate this run: %d]'
                                % (prop, e['what'], e['id'], hits.get(e['id'], 0)))
+    # ---------------------------------------------------------------- cross-check with other solvers (thorough tier)
+    cross = crosscheck([(j['id'], d) for j, a in zip(jobs, agg) for d in (a.get('dump') or [])][:40])
     # ---------------------------------------------------------------- verdict
     problems = []
+    if cross and (cross['disagreements'] or cross['errors']):
+        problems.append('cross-check: %d disagreement(s), %d error(s): %s' % (cross['disagreements'], cross['errors'], cross['first_problem']))
     if crashes: problems.append('worker crash: ' + crashes[0][-300:])
     for j, a in zip(jobs, agg):
         if a['errors']:
@@ -237,6 +283,8 @@ def run_property(prop, tier, jobs, level_note='', assumptions=(), outside=(), wo
         'wall_s': round(time.time() - t0, 2),
         'violations': len(violations),
     }
+    if cross:
+        ev['coverage']['crosscheck'] = cross
     if extra_evidence:
         ev['coverage'].update(extra_evidence(jobs, agg))
     if problems:
